@@ -1,9 +1,12 @@
 package main
 
 import (
+	"berty.tech/go-orbit-db/stores"
+	"berty.tech/go-orbit-db/stores/operation"
 	"bytes"
 	"context"
 	"fmt"
+	"github.com/libp2p/go-libp2p/p2p/host/eventbus"
 	"os"
 	"sort"
 	"time"
@@ -549,6 +552,37 @@ func (r *rpRun) run(b Behaviour, idx int) {
 	h := sim.TheHub
 	mine := func(i int) func(args []interface{}) bool {
 		return func(args []interface{}) bool { return r.isStore(args, i) }
+	}
+	// C16: a replicated event announces only entries the store holds when the event is received
+	if sub, err := r.nodes["a"].Bus().Subscribe(new(stores.EventReplicated), eventbus.BufSize(0)); err == nil {
+		octx, ocancel := context.WithCancel(context.Background())
+		defer ocancel()
+		go func() {
+			defer sub.Close()
+			for {
+				select {
+				case <-octx.Done():
+					return
+				case e := <-sub.Out():
+					evt, ok := e.(stores.EventReplicated)
+					if !ok || evt.Address.String() != r.a.Addr {
+						continue
+					}
+					all := r.a.S.(orbitdb.KeyValueStore).All()
+					for _, en := range evt.Entries {
+						r.res.Comparisons++
+						_, inLog := r.a.S.OpLog().Get(en.GetHash())
+						key := ""
+						if op, err := operation.ParseOperation(en); err == nil && op.GetKey() != nil {
+							key = *op.GetKey()
+						}
+						if _, inView := all[key]; !inLog || !inView {
+							r.violate("replicated-event", fmt.Sprintf("a replicated event announces entry %d (key %s) which the store does not hold when the event is received (in log: %v, in view: %v)", r.ids[en.GetHash().String()], key, inLog, inView), nil, nil)
+						}
+					}
+				}
+			}
+		}()
 	}
 	h.ParkAt("repl.slot.wait", mine(1))
 	h.ParkAt("repl.fetch", mine(1))
